@@ -178,6 +178,47 @@ Theorem C16_explicit_suite_resumes :
 Proof. intros tagT mac tag_eqb junk (H1 & H2 & H3). exact (valid_ticket_resumes mac tag_eqb junk H1 H2 H3). Qed.
 Print Assumptions C16_explicit_suite_resumes.
 
+(* 5a. Fall-back.  A connection that offers a session which is not resumed - the client drops the cached
+   session (its suite or version is no longer configured), or checkForResumption refuses the ticket (tickets
+   disabled, key no longer configured, MAC does not verify, other version, suite not offered / not supported,
+   client-certificate policy) - is, for everything the property observes (outcome class, version, suite,
+   master secret, both peer identities, ticket issued) and for the session the client stores, the connection
+   WITHOUT a session: a silent full handshake (or the same failure a first connection would have had). *)
+Theorem C16_fallback_is_full_handshake :
+  forall (tagT : Type) (mac : N -> N * N * sst -> tagT) tag_eqb cfg c idx (s : csess tagT),
+    (session_usable c s = true ->
+     forall gm vers, server_version (s_mode cfg) (hello_vers (c_kind c)) = Some (gm, vers) ->
+       checkForResumption_model mac tag_eqb gm cfg vers (hello_suites c) (Some (cs_ticket s)) = None) ->
+    obs_of (fst (connect mac tag_eqb cfg c idx (Some s))) = obs_of (fst (connect mac tag_eqb cfg c idx None))
+    /\ snd (connect mac tag_eqb cfg c idx (Some s)) = snd (connect mac tag_eqb cfg c idx None).
+Proof. intros tagT mac tag_eqb. exact (fallback_is_full_handshake mac tag_eqb). Qed.
+Print Assumptions C16_fallback_is_full_handshake.
+
+(* 5b. The third outcome.  Once checkForResumption has accepted the ticket the server has committed to the
+   abbreviated handshake (the ServerHello echoing the session id is on its way): the connection is Resumed, or
+   it FAILS on both sides and nothing is stored - exactly when (i) the client certificates stored in the
+   ticket no longer verify under the current policy (processCertsFromClient inside doResumeHandshake: a
+   forged-issuer certificate accepted under RequestClientCert / RequireAnyClientCert, then ChangeClientAuth
+   to VerifyClientCertIfGiven / RequireAndVerifyClientCert), or (ii) the client's cached session disagrees
+   with what the server resumed: version or suite (processServerHello; only after ForgeVers / ForgeSuite) or
+   master secret (Finished).  It is never resumed in these cases and never silently falls back; a first
+   connection of the same client would fail in case (i) as well.  The Crashed disjunct (empty key list although
+   an old key was found) is unreachable. *)
+Theorem C16_resume_attempt_outcomes :
+  forall (tagT : Type) (mac : N -> N * N * sst -> tagT) tag_eqb cfg c idx (s : csess tagT) gm vers st old,
+    session_usable c s = true ->
+    server_version (s_mode cfg) (hello_vers (c_kind c)) = Some (gm, vers) ->
+    checkForResumption_model mac tag_eqb gm cfg vers (hello_suites c) (Some (cs_ticket s)) = Some (st, old) ->
+    let r := fst (connect mac tag_eqb cfg c idx (Some s)) in
+    (r_cls r = Resumed /\ stored_certs_ok (s_auth cfg) (st_certs st) = true
+       /\ cs_vers s = vers /\ cs_suite s = st_suite st /\ cs_ms s = st_ms st)
+    \/ (r_cls r = Failed /\ snd (connect mac tag_eqb cfg c idx (Some s)) = None
+        /\ (stored_certs_ok (s_auth cfg) (st_certs st) = false \/ cs_vers s <> vers
+            \/ cs_suite s <> st_suite st \/ cs_ms s <> st_ms st))
+    \/ (r_cls r = Crashed /\ old = true /\ s_keys cfg = []).
+Proof. intros tagT mac tag_eqb. exact (resume_attempt_outcomes mac tag_eqb). Qed.
+Print Assumptions C16_resume_attempt_outcomes.
+
 (* 6. Every history (any length) of connections with arbitrary client configurations, ticket-key
    rotations, suite-list and ClientAuth changes, disabling / enabling tickets, forged client-side session
    fields, tampered tickets, client cache of any capacity, any number of server configurations: every
@@ -227,7 +268,10 @@ Print Assumptions C16_reissued_ticket_same_identity.
    randoms and suite lengths both ends cut the same key block and install it mirrored, and every fragment
    sealed by one end under sequence number s is opened by the other, both moving to s+1 - the record-layer
    round trip of C07 (premise prims_ok: the block cipher, MAC and AEAD are functions with the right lengths
-   and open(seal) = id). *)
+   and open(seal) = id).  The key-agreement half (same slices, mirrored installation: resumed_keys_agree) holds
+   for every version; the record round trip is stated for VersionGMSSL because C07's
+   decrypt_encrypt_record_ok is (its premise hc_version r = VersionGMSSL: explicit IV per record); TLS 1.1/1.2
+   records have the same shape, TLS 1.0 chains the CBC IV - not covered by C07, hence not here. *)
 Theorem C16_resumed_record_protection :
   forall (hmac : list N -> list N -> list N) (P : prims), prims_ok P ->
   forall fuel ms cr sr macLen keyLen ivLen slices (aead : bool) s h3 eiv frag,
@@ -340,6 +384,34 @@ Example C16_reissue_example :
       (h_log (hrun_term 2 [cfg] [Connect 0 cli; RotateKeys 0 [3; 1]; Connect 0 cli; Connect 0 cli; Connect 0 cli]))
   = [(Full, 0, 1, true); (Resumed, 0, 1, true); (Resumed, 0, 1, false); (Resumed, 0, 1, false)].
 Proof. vm_compute. reflexivity. Qed.
+
+(* the Failed outcome of an accepted ticket: a forged-issuer client certificate accepted under RequestClientCert
+   travels in the ticket; after ChangeClientAuth to RequireAndVerifyClientCert the resumption attempt fails on
+   both sides (not resumed, no fall-back), and so does a fresh connection of that client *)
+Example C16_failed_resume_example :
+  let cfg := mkS SGM (Some [57363]) false 1 false [1] in
+  let cli := mkC CG (Some [57363]) 2 0 true in
+  map (@r_cls term_tag) (h_log (hrun_term 2 [cfg] [Connect 0 cli; Connect 0 cli; ChangeClientAuth 0 4; Connect 0 cli;
+                                                   Connect 0 (mkC CG (Some [57363]) 2 7 true)]))
+  = [Full; Resumed; Failed; Failed].
+Proof. vm_compute. reflexivity. Qed.
+
+(* fall-back: after the key is dropped the connection is the one without a session, and stores a new ticket *)
+Example C16_fallback_example :
+  let cfg := mkS SGM (Some [57363]) false 0 false [1] in
+  let cli := mkC CG (Some [57363]) 0 0 true in
+  map (fun r => (r_cls r, r_ms r, r_stored r))
+      (h_log (hrun_term 2 [cfg] [Connect 0 cli; RotateKeys 0 [5]; Connect 0 cli; Connect 0 cli]))
+  = [(Full, 0, true); (Full, 1, true); (Resumed, 1, false)].
+Proof. vm_compute. reflexivity. Qed.
+
+(* the hypothesis "keysFromMasterSecret_model ... = Ok slices" of C16_resumed_record_protection is met
+   (toy 32-byte MAC; SM4-CBC + HMAC-SM3 lengths 32/16/16, fuel = the 128 bytes needed) *)
+Example C16_key_block_hypothesis_example :
+  let hmac := fun (k m : list N) => firstn 32 (m ++ k ++ repeat 0 32) in
+  exists slices, keysFromMasterSecret_model hmac 128 (repeat 7 48) (repeat 1 32) (repeat 2 32) 32 16 16 = Ok slices
+    /\ ck_out (establishKeys_client slices) = ck_in (establishKeys_server slices).
+Proof. eexists. vm_compute. split; reflexivity. Qed.
 
 (* the hypotheses of C16_explicit_suite_resumes are met: the first connection is a full handshake that
    stores a session *)
